@@ -146,6 +146,7 @@ def long_graph(rng):
 
 
 def run_shard(ctx):
+    gg.ALLOW_ODD = True  # node names that are not Python identifiers are node names like any other
     install()
     rng = ctx.rng
     idx = 0
